@@ -31,6 +31,8 @@ NoSpectatorExplicitH(I) == HAtoms(I) \subseteq RCNodes(I)
 (* every hydrogen-count or charge change sits on an atom of the centre (else the centre alone cannot describe the reaction) *)
 ChangesInsideCentre(I) == \A v \in INodes(I) : I.tG[v] # I.tH[v] => v \in RCNodes(I)
 
+LeftComponents(rc) == LG!NComp([n |-> rc.n, lab |-> [k \in 1..rc.n |-> 0], hc |-> [k \in 1..rc.n |-> 0], adj |-> rc.oG])
+
 (* some heavy atom receives two (or more) explicit hydrogens *)
 TwoExplicitHToOneAtom(I) ==
    \/ (\E ya \in Heavy(I) : Cardinality({h \in HAtoms(I) : I.oG[h][ya] = 0 /\ I.oH[h][ya] # 0}) >= 2)
@@ -46,8 +48,9 @@ Verdict(c) ==
       ELSE IF \E k \in DOMAIN c.got : c.got[k].r = c.want.r /\ c.got[k].p = c.want.p THEN "ok"
       ELSE "own-template-does-not-regenerate-the-reaction:" \o c.what \o
            (* known findings are identified by their mechanism (see known_findings.json) *)
-           (IF \E k \in DOMAIN c.raw : c.raw[k].r = c.want.r /\ c.raw[k].p = c.want.p
-            THEN "[regenerating-match-removed-by-symmetry-pruning]"
+           (IF /\ \E k \in DOMAIN c.raw : c.raw[k].r = c.want.r /\ c.raw[k].p = c.want.p
+               /\ c.mode = "implicit" /\ ~c.full /\ LeftComponents(rc) >= 2
+            THEN "[regenerating-match-removed-by-symmetry-pruning,multi-component-centre]"
             ELSE IF c.mode = "explicit" /\ c.full /\ TwoExplicitHToOneAtom(I)
             THEN "[full-its-template,two-explicit-hydrogens-move-to-one-atom]" ELSE "")
 
